@@ -208,6 +208,14 @@ func (g *genCfg) gen(v reflect.Value) {
 		for i := 0; i < n; i++ {
 			sub.gen(s.Index(i))
 		}
+		// repeated elements: sibling maps with the same keys, equal strings, equal structs
+		if n >= 2 && g.r.Intn(4) == 0 {
+			for i := 1; i < n; i++ {
+				if g.r.Intn(2) == 0 {
+					s.Index(i).Set(s.Index(0))
+				}
+			}
+		}
 		v.Set(s)
 	case reflect.Map:
 		if g.r.Intn(6) == 0 && g.minLen == 0 {
@@ -221,13 +229,24 @@ func (g *genCfg) gen(v reflect.Value) {
 				n = g.r.Intn(4)
 			}
 		}
+		// maps as programs build them: without a size hint and by repeated insertion, so that some are
+		// encoded while the runtime is still moving entries to a grown table (entry counts just past
+		// the load-factor thresholds 6.5 * 2^B); a pre-sized map is never in that state
+		growth := false
+		if !elemHasStruct(t.Elem()) && !elemHasStruct(t.Key()) && t.Elem().Kind() != reflect.Map && t.Elem().Kind() != reflect.Slice && !g.minimal && g.r.Intn(6) == 0 {
+			n = []int{14, 27, 28, 53, 54, 55, 56, 105, 107, 110, 113}[g.r.Intn(11)]
+			growth = true
+		}
 		m := reflect.MakeMapWithSize(t, n)
+		if growth || g.r.Intn(2) == 0 {
+			m = reflect.MakeMap(t)
+		}
 		sub := *g
 		sub.maxLen = g.maxLen / 3
 		sub.zeroLeaf = g.minimal
 		ksub := sub
 		ksub.zeroLeaf = false // keys stay distinct
-		for i := 0; i < n; i++ {
+		for i := 0; i < n || (growth && m.Len() < n && i < 6*n); i++ {
 			k := reflect.New(t.Key()).Elem()
 			ksub.gen(k)
 			if k.Kind() == reflect.Ptr && k.IsNil() {
